@@ -395,6 +395,7 @@ func RegisterNewHelpers(p *Prog, pinned *Pinned) {
 	}
 	seamSites := registerSeams(p)
 	registerSoleImplInterfaces(p, pinned)
+	registerSoleSites(p)
 	// named module types with a value converted to an interface somewhere in module code
 	boxedTypes := map[*types.Named]bool{}
 	for _, fn := range p.Funcs {
@@ -1303,4 +1304,62 @@ func ifaceTarget(m *types.Func) *types.Func {
 	helperMu.RLock()
 	defer helperMu.RUnlock()
 	return ifaceAlias[m]
+}
+
+// ---- sole call sites of module functions ----
+
+var soleSites = map[*ssa.Function]ssa.CallInstruction{}
+
+// registerSoleSites records, for every module function with exactly one static call/go/defer
+// site that is never used as a value, that site.
+func registerSoleSites(p *Prog) {
+	sites := map[*ssa.Function][]ssa.CallInstruction{}
+	asValue := map[*ssa.Function]bool{}
+	for _, fn := range p.AllFuncs {
+		EachInstrRaw(fn, func(i ssa.Instruction) {
+			var callee ssa.Value
+			if ci, ok := i.(ssa.CallInstruction); ok {
+				callee = ci.Common().Value
+				if h, isF := callee.(*ssa.Function); isF && !ci.Common().IsInvoke() {
+					sites[h] = append(sites[h], ci)
+				}
+			}
+			var ops []*ssa.Value
+			for _, op := range i.Operands(ops) {
+				if op == nil || *op == nil {
+					continue
+				}
+				if h, isF := (*op).(*ssa.Function); isF && *op != callee {
+					asValue[h] = true
+				}
+			}
+		})
+	}
+	helperMu.Lock()
+	for h, ss := range sites {
+		if len(ss) == 1 && !asValue[h] && p.IsModFunc(h) && h.Signature.Recv() == nil {
+			soleSites[h] = ss[0]
+			p.regSole = append(p.regSole, h)
+		}
+	}
+	helperMu.Unlock()
+}
+
+// soleSiteArg: the argument passed for prm at the only call site of its function.
+func soleSiteArg(prm *ssa.Parameter) ssa.Value {
+	fn := prm.Parent()
+	helperMu.RLock()
+	site := soleSites[fn]
+	helperMu.RUnlock()
+	if site == nil {
+		return nil
+	}
+	for k, x := range fn.Params {
+		if x == prm {
+			if args := site.Common().Args; k < len(args) {
+				return args[k]
+			}
+		}
+	}
+	return nil
 }
